@@ -5,6 +5,12 @@
 //                                                        symbol set <set>, then a chain of mutation /
 //                                                        crossover / get_block
 //     chain <seed> <rows> <nex>                          hand-built DAG with maximal sharing
+//     long <set> <seed> <kmax>                           ONE interpreter object reused for thousands of runs of a
+//                                                        small conditional program whose lazily evaluated branch is
+//                                                        needed only at run indices separated by gaps 2^k-1, 2^k,
+//                                                        2^k+1 (k = 1..kmax), with fresh inputs each time
+//     wide <seed> <rows> <nex>                           examples with 70000 features, programs over variables whose
+//                                                        indices sit around 2^8 and 2^16
 // one answer line per request: a transcript of items separated by " ;; "
 //     P <rows> <cats> <bi> <bc> ; i c desc par n a0 c0 … ; …       a program (active AND inactive genes)
 //     R<k> <example tokens> = <vita's answer> <oracle's answer>
@@ -12,10 +18,14 @@
 //              S  one src_interpreter object reused over the examples, in order
 //              0  vita::run(ind)                          (interpreter<i_mep>, no example)
 //              L  one reg_lambda_f object reused over the examples
+//     RR<k> <n> <example tokens> = <vita's last answer> <oracle's answer> bad=<runs whose answer was not the oracle's>
+//          the same example run <n> times in a row on the object of the preceding R<k> items (k = S or L)
+//     an example may be written sparsely:  @<size> <default token> <index>:<token> …
 // The oracle is written here and is independent of vita's interpreter AND of the Lean model: the
 // active expression tree is evaluated recursively, without memo and without an instruction
 // pointer, by calling symbol::eval with a params object that recurses ("skip" when the tree is
-// larger than a budget).
+// larger than a budget); a variable is NOT evaluated through vita::variable::eval: the oracle reads the
+// feature whose index this harness gave the variable when it built the symbol set.
 #include "c01_wire.h"
 
 #include "kernel/vita.h"
@@ -40,24 +50,30 @@ namespace
 struct budget_exceeded {};
 
 // ---- the oracle ---------------------------------------------------------------------------
+using var_index_t = std::map<const symbol *, unsigned long>;
+
 struct tree_params : symbol_params
 {
   const i_mep &prg;
   locus l;
   const std::vector<value_t> *ex;
   unsigned long *steps;
+  const var_index_t *vars;
 
-  tree_params(const i_mep &p, locus loc, const std::vector<value_t> *e, unsigned long *s)
-    : prg(p), l(loc), ex(e), steps(s) {}
+  tree_params(const i_mep &p, locus loc, const std::vector<value_t> *e, unsigned long *s,
+              const var_index_t *v)
+    : prg(p), l(loc), ex(e), steps(s), vars(v) {}
 
   value_t eval_here()
   {
     if (++*steps > 400000) throw budget_exceeded();
+    if (const auto it = vars->find(prg[l].sym); it != vars->end())
+      return (ex && it->second < ex->size()) ? (*ex)[it->second] : value_t();
     return prg[l].sym->eval(*this);
   }
   value_t fetch_arg(unsigned i) override
   {
-    tree_params sub(prg, prg[l].locus_of_argument(i), ex, steps);
+    tree_params sub(prg, prg[l].locus_of_argument(i), ex, steps, vars);
     return sub.eval_here();
   }
   value_t fetch_opaque_arg(unsigned i) override { return fetch_arg(i); }
@@ -68,12 +84,12 @@ struct tree_params : symbol_params
   }
 };
 
-std::string oracle(const i_mep &ind, const std::vector<value_t> *ex)
+std::string oracle(const var_index_t &vars, const i_mep &ind, const std::vector<value_t> *ex)
 {
   unsigned long steps = 0;
   try
   {
-    tree_params p(ind, ind.best(), ex, &steps);
+    tree_params p(ind, ind.best(), ex, &steps, &vars);
     return wire::enc(p.eval_here());
   }
   catch (const std::bad_variant_access &) { return "T"; }
@@ -85,7 +101,9 @@ struct symset
 {
   problem prob;
   std::map<const symbol *, std::string> desc;
+  var_index_t var_index;       // variable symbol -> the feature index this harness gave it
   std::vector<char> var_dom;   // domain of variable k: 'd', 'i', 's'
+  std::vector<symbol *> var_sym;
 
   template<class S, class... A> symbol *fn(A &&... a)
   {
@@ -98,7 +116,15 @@ struct symset
     const unsigned k = var_dom.size();
     symbol *s = prob.sset.insert<variable>("X" + std::to_string(k), k, c);
     desc[s] = "X:" + std::to_string(k);
+    var_index[s] = k;
     var_dom.push_back(dom);
+    var_sym.push_back(s);
+  }
+  void wide_var(unsigned long k)    // a real variable reading feature k (any k, not consecutive)
+  {
+    symbol *s = prob.sset.insert<variable>("X" + std::to_string(k), static_cast<unsigned>(k), category_t(0));
+    desc[s] = "X:" + std::to_string(k);
+    var_index[s] = k;
   }
   void kd(double v, category_t c)
   {
@@ -192,6 +218,15 @@ std::unique_ptr<symset> make_set(const std::string &name)
     s->fn<real::real>(cvect{0});
     s->kd(1.0, 0);
   }
+  else if (name == "wide")          // single category; variables reading features around 2^8 and 2^16
+  {
+    s->fn<real::add>(cvect{0}); s->fn<real::sub>(cvect{0}); s->fn<real::mul>(cvect{0});
+    s->fn<real::max>(cvect{0}); s->fn<real::ifl>(cvect{0, 0});
+    for (unsigned long k : {0ul, 3ul, 4ul, 254ul, 255ul, 256ul, 257ul, 259ul, 4463ul, 65534ul, 65535ul, 65536ul,
+                            65537ul, 65539ul, 65791ul, 65792ul, 69999ul})
+      s->wide_var(k);
+    s->kd(1.5, 0);
+  }
   else
     return nullptr;
   return s;
@@ -256,40 +291,122 @@ template<class F> std::string guarded(F f)
   catch (const std::bad_variant_access &) { return "T"; }
 }
 
-void exercise(const symset &ss, const i_mep &ind, verif::splitmix &r, unsigned nex, std::string &out)
+struct example_t
+{
+  std::vector<value_t> v;
+  std::string tok;
+};
+
+void exercise(const symset &ss, const i_mep &ind, const std::vector<example_t> &exs, std::string &out)
 {
   out += (out.empty() ? "" : " ;; ") + program(ss, ind);
-  std::vector<std::vector<value_t>> exs;
-  for (unsigned e = 0; e < nex; ++e)
-  {
-    std::vector<value_t> ex;
-    for (char d : ss.var_dom) ex.push_back(draw(r, d));
-    exs.push_back(ex);
-  }
   // fresh interpreter per example
   for (const auto &ex : exs)
-    out += " ;; RF " + tokens(ex) + " = " + guarded([&] { return vita::run(ind, ex); }) + " " + oracle(ind, &ex);
+    out += " ;; RF " + ex.tok + " = " + guarded([&] { return vita::run(ind, ex.v); }) + " " +
+           oracle(ss.var_index, ind, &ex.v);
   // one src_interpreter object over all the examples
   {
     src_interpreter<i_mep> it(&ind);
     for (const auto &ex : exs)
-      out += " ;; RS " + tokens(ex) + " = " + guarded([&] { return it.run(ex); }) + " " + oracle(ind, &ex);
+      out += " ;; RS " + ex.tok + " = " + guarded([&] { return it.run(ex.v); }) + " " +
+             oracle(ss.var_index, ind, &ex.v);
     // … and once more in reverse order on the same object
     for (auto e = exs.rbegin(); e != exs.rend(); ++e)
-      out += " ;; RS " + tokens(*e) + " = " + guarded([&] { return it.run(*e); }) + " " + oracle(ind, &*e);
+      out += " ;; RS " + e->tok + " = " + guarded([&] { return it.run(e->v); }) + " " +
+             oracle(ss.var_index, ind, &e->v);
   }
   // no example at all
-  out += " ;; R0 = " + guarded([&] { return vita::run(ind); }) + " " + oracle(ind, nullptr);
+  out += " ;; R0 = " + guarded([&] { return vita::run(ind); }) + " " + oracle(ss.var_index, ind, nullptr);
   // the regression lambda keeps one interpreter as well
   {
     const reg_lambda_f<i_mep> lam(ind);
     for (const auto &ex : exs)
     {
       dataframe::example de;
-      de.input = ex;
-      out += " ;; RL " + tokens(ex) + " = " + guarded([&] { return lam(de); }) + " " + oracle(ind, &ex);
+      de.input = ex.v;
+      out += " ;; RL " + ex.tok + " = " + guarded([&] { return lam(de); }) + " " +
+             oracle(ss.var_index, ind, &ex.v);
     }
   }
+}
+
+void exercise(const symset &ss, const i_mep &ind, verif::splitmix &r, unsigned nex, std::string &out)
+{
+  std::vector<example_t> exs;
+  for (unsigned e = 0; e < nex; ++e)
+  {
+    example_t ex;
+    for (char d : ss.var_dom) ex.v.push_back(draw(r, d));
+    ex.tok = tokens(ex.v);
+    exs.push_back(ex);
+  }
+  exercise(ss, ind, exs, out);
+}
+
+// ---- wide examples --------------------------------------------------------------------------
+const unsigned long WIDE_N = 70000;
+const unsigned long WIDE_VARS[] = {0, 3, 4, 254, 255, 256, 257, 259, 4463, 65534, 65535, 65536, 65537, 65539,
+                                   65791, 65792, 69999};
+
+// every feature is `def` except the features a (possibly truncated) variable index could hit: those
+// get pairwise different values, so reading the wrong feature is visible
+example_t wide_example(verif::splitmix &r)
+{
+  example_t ex;
+  const double def = double(r.between(-8, 9)) + 0.125;
+  ex.v.assign(WIDE_N, value_t(def));
+  std::map<unsigned long, double> special;
+  for (unsigned long k : WIDE_VARS)
+    for (unsigned long m : {k, k % 65536ul, k % 256ul, (k + 1) % WIDE_N, k ? k - 1 : 0ul})
+      special[m] = 0.0;
+  double x = double(r.between(-50, 51));
+  for (auto &kv : special)
+  {
+    x += 1.0 + double(r.below(7)) * 0.25;
+    kv.second = x;
+  }
+  ex.tok = "@" + std::to_string(WIDE_N) + " " + wire::enc(value_t(def));
+  for (auto &kv : special)
+  {
+    ex.v[kv.first] = value_t(kv.second);
+    ex.tok += " " + std::to_string(kv.first) + ":" + wire::enc(value_t(kv.second));
+  }
+  return ex;
+}
+
+// ---- long reuse of one interpreter object -----------------------------------------------------
+struct cond_info { const char *name; int tests; };
+const cond_info CONDS[] = {{"FIFL", 2}, {"FIFE", 2}, {"FIFZ", 1}, {"IFL", 2}, {"IFE", 2}, {"IFZ", 1}, {"SIFE", 2}};
+
+const cond_info *cond_of(const symbol *s)
+{
+  for (const auto &c : CONDS) if (s->name() == c.name) return &c;
+  return nullptr;
+}
+
+value_t fresh_value(char dom, unsigned long j)
+{
+  switch (dom)
+  {
+  case 'd': return value_t(double(j) * 1.25 + 0.5);
+  case 'i': return value_t(int(j % 100000) * 3 + 1);
+  default:  return value_t("s" + std::to_string(j));
+  }
+}
+
+// the values of the (one or two) tested variables that make the condition of `name` true / false;
+// `j` makes them different from run to run where the condition leaves room for that
+void set_tests(const std::string &name, bool truth, unsigned long j, value_t &t0, value_t &t1)
+{
+  const double d = double(j % 1000) * 2.0;
+  const int n = int(j % 100000);
+  if (name == "FIFL")      { t0 = truth ? d : d + 3.0;  t1 = truth ? d + 1.0 : d; }
+  else if (name == "FIFE") { t0 = d + 0.5;              t1 = truth ? d + 0.5 : d + 1.5; }
+  else if (name == "FIFZ") { t0 = truth ? 0.0 : d + 1.0; }
+  else if (name == "IFL")  { t0 = truth ? n : n + 3;    t1 = truth ? n + 1 : n; }
+  else if (name == "IFE")  { t0 = n;                    t1 = truth ? n : n + 1; }
+  else if (name == "IFZ")  { t0 = truth ? 0 : n + 1; }
+  else /* SIFE */          { t0 = "k" + std::to_string(j); t1 = truth ? "k" + std::to_string(j) : std::string("other"); }
 }
 }  // namespace
 
@@ -298,7 +415,7 @@ int main()
   log::reporting_level = log::lOFF;
 
   std::map<std::string, std::unique_ptr<symset>> sets;
-  for (const char *n : {"real", "int", "str2", "typed3", "illtyped"}) sets[n] = make_set(n);
+  for (const char *n : {"real", "int", "str2", "typed3", "illtyped", "wide"}) sets[n] = make_set(n);
 
   std::string line;
   while (std::getline(std::cin, line))
@@ -374,6 +491,161 @@ int main()
         gv.emplace_back(std::make_pair(term[r.below(term.size())], std::vector<index_t>{}));
         const i_mep ind(gv);
         exercise(ss, ind, r, nex, out);
+      }
+      else if (t.size() == 4 && t[0] == "wide")
+      {
+        symset &ss = *sets["wide"];
+        const unsigned long seed = std::stoul(t[1]);
+        ss.prob.env.mep.code_length = std::stoul(t[2]);
+        ss.prob.env.mep.patch_length = 1 + seed % 3;
+        const unsigned nex = std::stoul(t[3]);
+        random::seed(seed);
+        verif::splitmix r(seed);
+        std::vector<example_t> exs;
+        for (unsigned e = 0; e < nex; ++e) exs.push_back(wide_example(r));
+        i_mep a(ss.prob);
+        for (unsigned round = 0; round < 3; ++round)
+        {
+          // start at a function whenever there is one, so that several variables are read
+          bool done = false;
+          for (index_t i = 0; i < a.size() && !done; ++i)
+            if (a[locus{i, 0}].sym->arity()) { exercise(ss, a.get_block(locus{i, 0}), exs, out); done = true; }
+          if (!done) exercise(ss, a, exs, out);
+          a.mutation(0.5, ss.prob);
+        }
+      }
+      else if (t.size() == 4 && t[0] == "long" && sets.count(t[1]) && t[1] != "wide")
+      {
+        symset &ss = *sets[t[1]];
+        const unsigned long seed = std::stoul(t[2]);
+        const unsigned kmax = std::stoul(t[3]);
+        random::seed(seed);
+        verif::splitmix r(seed);
+        ss.prob.env.mep.code_length = 17;
+        ss.prob.env.mep.patch_length = 2;
+
+        auto vars_of = [&](category_t c)
+        {
+          std::vector<unsigned> v;
+          for (unsigned k = 0; k < ss.var_sym.size(); ++k) if (ss.var_sym[k]->category() == c) v.push_back(k);
+          return v;
+        };
+        // conditionals of this set whose tested category offers enough different variables
+        std::vector<const function *> conds;
+        for (auto &kv : ss.desc)
+          if (kv.second.rfind("F:", 0) == 0 && kv.first->arity())
+            if (const cond_info *ci = cond_of(kv.first))
+            {
+              const function *f = function::cast(kv.first);
+              if (vars_of(f->arg_category(0)).size() >= unsigned(ci->tests)) conds.push_back(f);
+            }
+        if (conds.empty()) { std::cout << "bad-op no conditional\n"; continue; }
+        const function *f = conds[r.below(conds.size())];
+        const cond_info *ci = cond_of(f);
+
+        i_mep ind(ss.prob);
+        auto put_var = [&](index_t row, unsigned k)
+        {
+          ind = ind.replace(locus{row, ss.var_sym[k]->category()}, gene(*terminal::cast(ss.var_sym[k])));
+        };
+        // rows 1, 2: the tested variables
+        auto tv = vars_of(f->arg_category(0));
+        const unsigned i0 = r.below(tv.size());
+        const unsigned test0 = tv[i0];
+        const unsigned test1 = ci->tests == 2 ? tv[(i0 + 1 + r.below(tv.size() - 1)) % tv.size()] : test0;
+        put_var(1, test0);
+        if (ci->tests == 2) put_var(2, test1);
+        // rows 3, 4: the two branches; their arguments on rows 5.. and 10..
+        auto branch = [&](index_t row, index_t arg_row, category_t c)
+        {
+          std::vector<const symbol *> fs;
+          for (auto &kv : ss.desc)
+            if (kv.first->category() == c && kv.first->arity() && kv.second.rfind("F:", 0) == 0)
+            {
+              const function *g = function::cast(kv.first);
+              bool ok = true;
+              for (unsigned a = 0; a < g->arity(); ++a) ok = ok && !vars_of(g->arg_category(a)).empty();
+              if (ok) fs.push_back(kv.first);
+            }
+          if (fs.empty() || r.chance(0.1))
+          {
+            const auto v = vars_of(c);
+            if (v.empty()) return false;
+            put_var(row, v[r.below(v.size())]);
+            return true;
+          }
+          const function *g = function::cast(fs[r.below(fs.size())]);
+          std::vector<index_t> args;
+          for (unsigned a = 0; a < g->arity(); ++a)
+          {
+            const auto v = vars_of(g->arg_category(a));
+            put_var(arg_row + a, v[r.below(v.size())]);
+            args.push_back(arg_row + a);
+          }
+          ind = ind.replace(locus{row, c}, gene(std::make_pair(const_cast<symbol *>(static_cast<const symbol *>(g)), args)));
+          return true;
+        };
+        const category_t cb = f->arg_category(ci->tests);
+        if (!branch(3, 5, cb) || !branch(4, 10, cb)) { std::cout << "bad-op no branch\n"; continue; }
+        {
+          std::vector<index_t> args{1};
+          if (ci->tests == 2) args.push_back(2);
+          args.push_back(3);
+          args.push_back(4);
+          ind = ind.replace(locus{0, f->category()},
+                            gene(std::make_pair(const_cast<symbol *>(static_cast<const symbol *>(f)), args)));
+        }
+        ind = ind.get_block(locus{0, f->category()});
+        out = program(ss, ind);
+
+        const bool lazy_then = r.chance(0.5);
+        auto make = [&](bool truth, unsigned long j)
+        {
+          example_t ex;
+          for (unsigned k = 0; k < ss.var_dom.size(); ++k) ex.v.push_back(fresh_value(ss.var_dom[k], j));
+          value_t t0, t1;
+          set_tests(f->name(), truth, j, t0, t1);
+          ex.v[test0] = t0;
+          if (ci->tests == 2) ex.v[test1] = t1;
+          ex.tok = tokens(ex.v);
+          return ex;
+        };
+        std::vector<unsigned long> gaps;
+        for (unsigned k = 1; k <= kmax; ++k)
+          for (long d : {-1l, 0l, 1l}) gaps.push_back((1ul << k) + d);
+        for (std::size_t i = gaps.size(); i > 1; --i) std::swap(gaps[i - 1], gaps[r.below(i)]);
+
+        const example_t fill = make(!lazy_then, 7);
+        const std::string fill_orc = oracle(ss.var_index, ind, &fill.v);
+        const bool use_lambda = r.chance(0.3);
+        src_interpreter<i_mep> it(&ind);
+        const reg_lambda_f<i_mep> lam(ind);
+        const std::string k = use_lambda ? "L" : "S";
+        auto run1 = [&](const example_t &ex)
+        {
+          if (!use_lambda) return guarded([&] { return it.run(ex.v); });
+          dataframe::example de;
+          de.input = ex.v;
+          return guarded([&] { return lam(de); });
+        };
+        unsigned long j = 100;
+        for (unsigned long g : gaps)
+        {
+          if (g > 1)
+          {
+            unsigned long bad = 0;
+            std::string last;
+            for (unsigned long q = 0; q + 1 < g; ++q)
+            {
+              last = run1(fill);
+              if (last != fill_orc) ++bad;
+            }
+            out += " ;; RR" + k + " " + std::to_string(g - 1) + " " + fill.tok + " = " + last + " " + fill_orc +
+                   " bad=" + std::to_string(bad);
+          }
+          const example_t ex = make(lazy_then, ++j);
+          out += " ;; R" + k + " " + ex.tok + " = " + run1(ex) + " " + oracle(ss.var_index, ind, &ex.v);
+        }
       }
       else
         out = "bad-op";
